@@ -91,9 +91,71 @@ func rAddRoutes(e *echo.Echo, routes []rRoute, from int, cur *rObs) {
 		if routes[i].Direct {
 			e.Router().Add(routes[i].Method, routes[i].Path, h)
 		} else {
-			e.Add(routes[i].Method, routes[i].Path, h)
+			rAddVia(e, i+len(routes[i].Path), routes[i].Method, routes[i].Path, h)
 		}
 	}
+}
+
+// rRegistrar is the registration surface shared by *echo.Echo and *echo.Group.
+type rRegistrar interface {
+	Add(method, path string, handler echo.HandlerFunc, middleware ...echo.MiddlewareFunc) *echo.Route
+	CONNECT(path string, h echo.HandlerFunc, m ...echo.MiddlewareFunc) *echo.Route
+	DELETE(path string, h echo.HandlerFunc, m ...echo.MiddlewareFunc) *echo.Route
+	GET(path string, h echo.HandlerFunc, m ...echo.MiddlewareFunc) *echo.Route
+	HEAD(path string, h echo.HandlerFunc, m ...echo.MiddlewareFunc) *echo.Route
+	OPTIONS(path string, h echo.HandlerFunc, m ...echo.MiddlewareFunc) *echo.Route
+	PATCH(path string, h echo.HandlerFunc, m ...echo.MiddlewareFunc) *echo.Route
+	POST(path string, h echo.HandlerFunc, m ...echo.MiddlewareFunc) *echo.Route
+	PUT(path string, h echo.HandlerFunc, m ...echo.MiddlewareFunc) *echo.Route
+	TRACE(path string, h echo.HandlerFunc, m ...echo.MiddlewareFunc) *echo.Route
+	RouteNotFound(path string, h echo.HandlerFunc, m ...echo.MiddlewareFunc) *echo.Route
+	Match(methods []string, path string, handler echo.HandlerFunc, middleware ...echo.MiddlewareFunc) []*echo.Route
+}
+
+// rAddVerb registers through the helper named after the method; false when there is none.
+func rAddVerb(reg rRegistrar, method, path string, h echo.HandlerFunc, m ...echo.MiddlewareFunc) bool {
+	switch method {
+	case "CONNECT":
+		reg.CONNECT(path, h, m...)
+	case "DELETE":
+		reg.DELETE(path, h, m...)
+	case "GET":
+		reg.GET(path, h, m...)
+	case "HEAD":
+		reg.HEAD(path, h, m...)
+	case "OPTIONS":
+		reg.OPTIONS(path, h, m...)
+	case "PATCH":
+		reg.PATCH(path, h, m...)
+	case "POST":
+		reg.POST(path, h, m...)
+	case "PUT":
+		reg.PUT(path, h, m...)
+	case "TRACE":
+		reg.TRACE(path, h, m...)
+	case routeNotFound:
+		reg.RouteNotFound(path, h, m...)
+	default:
+		return false
+	}
+	return true
+}
+
+// rAddVia registers one route through one of the equivalent public entry points (Add, the verb helper,
+// Match), chosen by `pick` (a function of the case, so replays are deterministic).
+func rAddVia(reg rRegistrar, pick int, method, path string, h echo.HandlerFunc, m ...echo.MiddlewareFunc) {
+	switch pick % 4 {
+	case 1:
+		if rAddVerb(reg, method, path, h, m...) {
+			return
+		}
+	case 2:
+		if method != routeNotFound || pick%8 == 2 {
+			reg.Match([]string{method}, path, h, m...)
+			return
+		}
+	}
+	reg.Add(method, path, h, m...)
 }
 
 func rEcho(routes []rRoute, cur *rObs) *echo.Echo {
@@ -349,7 +411,10 @@ func rMatchLiberal(toks []rTok, path string) bool {
 
 var rLits = []string{"a", "b", "ab", "abc", "users", "x.y", "a-b", "new", "v1"}
 var rParams = []string{":id", ":name", ":x", ":y"}
-var rMethods = []string{"GET", "POST", "PUT", "DELETE", "OPTIONS", "X-CUSTOM", "PROPFIND", "purge", "Baseline-Control", routeNotFound}
+// every method with its own slot in routeMethods (router.go: the eleven standard ones), custom methods of the
+// anyOther map, and the RouteNotFound pseudo method (must stay last)
+var rMethods = []string{"GET", "POST", "PUT", "DELETE", "OPTIONS", "X-CUSTOM", "PROPFIND", "purge", "Baseline-Control",
+	"PATCH", "HEAD", "CONNECT", "TRACE", "REPORT", routeNotFound}
 
 type rGenOpts struct {
 	escaped  bool // allow `\:` segments
